@@ -346,7 +346,12 @@ def search(fl, FA, clause, cls, vals, seed=0):
 
 def replay_refuses(fl, FA, cls, monotonic, vals=None):
     """terms that are not monotonic refuse tsukamoto with RuntimeError"""
-    t = getattr(fl, cls)()
+    if cls == "Activated":
+        t = fl.Activated(fl.Ramp("r", 0.0, 1.0), 0.4, fl.Minimum())
+    elif cls == "Aggregated":
+        t = fl.Aggregated("a", 0.0, 1.0, fl.Maximum(), [fl.Activated(fl.Ramp("r", 0.0, 1.0), 0.4, fl.Minimum())])
+    else:
+        t = getattr(fl, cls)()
     try:
         z = t.tsukamoto(0.5)
     except RuntimeError:
